@@ -39,7 +39,12 @@ pub fn run_wire(ctx: &Ctx, rep: &mut Report) {
         let torrent = Rc::new(gen_sim_torrent(&mut sr, 6, false));
         let np = torrent.n();
         let mut peers = vec![];
-        let mut s = SeederCfg::honest(peer_id(0), vec![true; np]);
+        // in half of the scenarios the seeder lacks the last piece and the downloaders advertise it
+        // (without ever unchoking us): the client then stays interested in them, so that a peer
+        // which says NotInterested is not sent away
+        let leeching_for_ever = np > 1 && sr.chance(1, 2);
+        let withheld: Vec<bool> = (0..np).map(|i| leeching_for_ever && i == np - 1).collect();
+        let mut s = SeederCfg::honest(peer_id(0), (0..np).map(|i| !withheld[i]).collect());
         s.unchoke_after_ms = Some(0);
         s.idle_close_ms = 500_000;
         let s2 = s.clone();
@@ -51,12 +56,12 @@ pub fn run_wire(ctx: &Ctx, rep: &mut Report) {
         for j in 0..n_dial + n_in {
             let kk = 1 + j;
             let incoming = j >= n_dial;
-            let c = FuzzCfg { id: peer_id(kk), incoming, start_ms: sr.range(100, 3000), end_ms: dur + 50_000, pace_ms: match sr.below(4) { 0 => (10, 100), 1 => (100, 800), 2 => (500, 3000), _ => (2000, 9000) }, fuzz: 0, ignore_choke: 0, sulk: *sr.pick(&[0u64, 0, 0, 10]), have: vec![false; np] };
-            desc_peers.push(json!({"addr": addr(kk), "incoming": incoming, "pace_ms": [c.pace_ms.0, c.pace_ms.1], "sulk_permille": c.sulk}));
+            let c = FuzzCfg { id: peer_id(kk), incoming, start_ms: sr.range(100, 3000), end_ms: dur + 50_000, pace_ms: match sr.below(4) { 0 => (10, 100), 1 => (100, 800), 2 => (500, 3000), _ => (2000, 9000) }, fuzz: 0, ignore_choke: 0, sulk: *sr.pick(&[0u64, 0, 0, 10]), sulk_on_tick: sr.chance(1, 3), have: withheld.clone() };
+            desc_peers.push(json!({"addr": addr(kk), "incoming": incoming, "pace_ms": [c.pace_ms.0, c.pace_ms.1], "sulk_permille": c.sulk, "not_interested_on_rotation_ticks": c.sulk_on_tick}));
             let c2 = c.clone();
             peers.push(PeerSpec { addr: addr(kk), id: peer_id(kk), entry: if incoming { Entry::Incoming { at_ms: sr.range(0, 90) } /* admitted only while fewer than 4 uninterested peers exist, i.e. before the dials */ } else { Entry::Dialled { from_announce: 0 } }, make: Box::new(move |nth| if nth > 1 { None } else { Some(fuzz_leecher(c2.clone())) }), chunk: 0, pipe: 1 << 20 });
         }
-        let desc = json!({"seed": seed, "pieces": np, "virtual_ms": dur, "downloaders": desc_peers});
+        let desc = json!({"seed": seed, "pieces": np, "virtual_ms": dur, "client_never_completes": leeching_for_ever, "downloaders": desc_peers});
         let cfg = SimCfg { torrent, peers, tracker: vec![], failpoints: if sr.chance(1, 3) { Some(sr.next()) } else { None }, max_virtual_ms: dur, stop_on_extract: false, linger_ms: 0, disk_on: disk_never, seed, pre: None, tracker_fn: None, driver: None };
         rep.evaluations += 1;
         let o = run_sim(cfg, &ctx.scratch, 180);
@@ -98,8 +103,41 @@ pub fn run_wire(ctx: &Ctx, rep: &mut Report) {
                 if viol.is_some() { break; }
                 rep.count("wire_connections_checked", 1);
                 rep.count("wire_choke_state_frames", frames);
+                // agreement at every rotation tick: just before the manager rotates, a peer whose choke
+                // state (manager's view) and whose last Choke/Unchoke frame are both older than 2 s has
+                // been told exactly what the manager believes
+                {
+                    let window: Vec<u64> = o.events.iter().filter(|e| e.addr == a && e.conn == conn).map(|e| e.ms).collect();
+                    // the connection's life ends with the first KillReq / close seen for it (later events
+                    // under the same address belong to new dials)
+                    let w0 = window.first().copied().unwrap_or(0);
+                    let w1 = o.events.iter().find(|e| e.addr == a && e.conn == conn && (matches!(e.kind, EvKind::PeerSawClose | EvKind::PeerClosed) || matches!(&e.kind, EvKind::Mgr { kind, .. } if *kind == "KillReq"))).map(|e| e.ms).unwrap_or(window.last().copied().unwrap_or(0));
+                    let mut frames_tl: Vec<(u64, bool)> = vec![(w0, true)];
+                    for (e, m) in o.client_msgs(&a, conn) { match m { Msg::Choke => frames_tl.push((e.ms, true)), Msg::Unchoke => frames_tl.push((e.ms, false)), _ => () } }
+                    let mut mgr_tl: Vec<(u64, bool)> = vec![];
+                    for (e, _, snap) in o.mgr() {
+                        if e.ms < w0 || e.ms >= w1 { continue; }
+                        if let Some(p) = snap.peers.iter().find(|p| p.addr == a) { if mgr_tl.last().map(|x| x.1) != Some(p.am_choked) { mgr_tl.push((e.ms, p.am_choked)); } }
+                    }
+                    for (e, k, _) in o.mgr() {
+                        if k != "Rotation" || e.ms < w0 + 2_000 || e.ms >= w1 { continue; }
+                        let f = frames_tl.iter().rev().find(|x| x.0 < e.ms).copied();
+                        let g = mgr_tl.iter().rev().find(|x| x.0 < e.ms).copied();
+                        if let (Some(f), Some(g)) = (f, g) {
+                            if e.ms >= f.0 + 2_000 && e.ms >= g.0 + 2_000 {
+                                rep.count("wire_agreements_checked_at_rotation_ticks", 1);
+                                if f.1 != g.1 {
+                                    viol = Some(("C14:messages-disagree-with-state".into(), format!("{}: just before the rotation at t={} ms the frames written say choked={} (since t={} ms) while the manager says {} (since t={} ms)", a, e.ms, f.1, f.0, g.1, g.0), e.seq));
+                                    break;
+                                }
+                            }
+                        }
+                    }
+                    if viol.is_some() { break; }
+                }
                 // quiescent agreement: the last rotation was >= 1 s before the end, connection still open
-                if let Some(p) = last.and_then(|s| s.peers.iter().find(|p| p.addr == a)) {
+                let still_open = !o.events.iter().any(|e| e.addr == a && e.conn == conn && (matches!(e.kind, EvKind::PeerSawClose | EvKind::PeerClosed) || matches!(&e.kind, EvKind::Mgr { kind, .. } if *kind == "KillReq")));
+                if let Some(p) = last.and_then(|s| s.peers.iter().find(|p| p.addr == a)).filter(|_| still_open) {
                     let last_rotation = o.mgr().filter(|(_, k, _)| *k == "Rotation").map(|(e, _, _)| e.ms).last().unwrap_or(0);
                     if last_rotation + 1_000 < o.end_ms && last_frame_ms + 1_000 < o.end_ms && o.events.iter().filter(|e| e.addr == a && matches!(&e.kind, EvKind::Mgr { kind, .. } if *kind == "RecvBitfield")).all(|e| e.ms + 1_000 < o.end_ms) {
                         rep.count("wire_final_agreements_checked", 1);
